@@ -261,7 +261,8 @@ class World:
         if f.node.args.kwarg is not None and open_kwargs:
             kwargs["**"] = ADict(open=True, bases=("kw",), label="kw")
         fr = Frame(None, f.module, {}, qualname="<entry>")
-        I.frames = [fr]
+        saved_frames = list(I.frames)        # an entry call can be made from inside a callback (nested contexts)
+        I.frames = saved_frames + [fr]
         node = ast.parse("0").body[0]
         node.lineno = 0
         pos = []
@@ -273,7 +274,7 @@ class World:
         try:
             return I.call_function(f, [self.root] + pos + list(varargs), kwargs, node, dyncls=self.cls)
         finally:
-            I.frames = []
+            I.frames = saved_frames
 
     def call_method(self, I, label, name, args=(), kwargs=None):
         """Call method `name` of the object labelled `label` (dynamic dispatch on its class)."""
